@@ -123,4 +123,21 @@ impl PositionBundle {
         r is Ok ==> minted_one_and_sealed(old(ctx.accounts).position_bundle_mint.k, old(ctx.accounts).position_bundle_token_account.k), //# C18
 //@ rewrite /&\[\s*b"position_bundle"\.as_ref\(\),[^\]]*\[bump\],\s*\]/ => /position_seeds_shim()/
 //@ end
+
+#[verifier::external_body]
+pub fn mint_position_bundle_token_with_metadata_and_remove_authority<'info>(funder: &Signer<'info>, position_bundle: &Account<'info, PositionBundle>, position_bundle_mint: &Account<'info, Mint>,
+    position_bundle_token_account: &Account<'info, TokenAccount>, position_bundle_metadata: &UncheckedAccount<'info>, metadata_update_auth: &UncheckedAccount<'info>, metadata_program: &Program<'info, Metadata>,
+    token_program: &Program<'info, Token>, system_program: &Program<'info, System>, rent: &Sysvar<'info, Rent>, position_bundle_seeds: &[&[u8]]) -> (r: Result<()>)
+    ensures r is Ok ==> minted_one_and_sealed(position_bundle_mint.k, position_bundle_token_account.k) { unimplemented!() }
+//@ struct instructions/initialize_position_bundle_with_metadata.rs InitializePositionBundleWithMetadata
+//@ constraints instructions/initialize_position_bundle_with_metadata.rs InitializePositionBundleWithMetadata
+/// C18: as initialize_position_bundle, with the Metaplex metadata CPI
+//@ fn instructions/initialize_position_bundle_with_metadata.rs handler -> r as=initialize_position_bundle_with_metadata_handler canary
+    requires constraints_InitializePositionBundleWithMetadata(old(ctx.accounts)),
+    ensures
+        r is Ok ==> final(ctx.accounts).position_bundle.data.position_bundle_mint == old(ctx.accounts).position_bundle_mint.k && final(ctx.accounts).position_bundle.data.position_bitmap == old(ctx.accounts).position_bundle.data.position_bitmap, //# C18
+        r is Ok ==> old(ctx.accounts).position_bundle.skey() == crate::anchor_shim::pda_of(seq![crate::anchor_shim::Seed::Lit(0x706f736974696f6e5f62756e646c65int), crate::anchor_shim::Seed::Key(old(ctx.accounts).position_bundle_mint.skey())]), //# C18
+        r is Ok ==> minted_one_and_sealed(old(ctx.accounts).position_bundle_mint.k, old(ctx.accounts).position_bundle_token_account.k), //# C18
+//@ rewrite /&\[\s*b"position_bundle"\.as_ref\(\),[^\]]*\[bump\],\s*\]/ => /position_seeds_shim()/
+//@ end
 }
